@@ -162,7 +162,11 @@ def torn_caches(ses, prop):
             m += 1
             idx[0].parent.mkdir(parents=True, exist_ok=True)
             idx[0].write_text(doc[:c])
-            _open(d, use_cache=True, create_cache=True, records_per_chunk=3)
+            try:
+                _open(d, use_cache=True, create_cache=True, records_per_chunk=3)
+            except Exception as e:  # noqa: BLE001  an exception of the code under test is a failed bounded obligation, not a crash of the check
+                bad2.append((c, f"raised {type(e).__name__}: {e}"[:160]))
+                continue
             now = idx[0].read_text()
             try:
                 caching.decode(now, records_per_chunk=3)
